@@ -1,7 +1,7 @@
 (* C04 — no transaction sequence halts the chain; updates are always valid for CometBFT. *)
 From stdpp Require Import gmap.
 Require Import Model.Base Model.State Model.Staking Model.Slashing Model.Poa Model.App.
-Require Import proofs.Inv proofs.InvPres proofs.InvMsgs proofs.InvHistory proofs.InvComet proofs.InvQueue proofs.InvPools proofs.InvElig proofs.InvLive proofs.InvBegin proofs.L1More.
+Require Import proofs.Inv proofs.InvPres proofs.InvMsgs proofs.InvHistory proofs.InvComet proofs.InvQueue proofs.InvPools proofs.InvElig proofs.InvLive proofs.InvBegin proofs.InvBound proofs.L1More.
 
 (* after every block of every history from every (non-negative) genesis — any number of blocks, any in-block
    order of any messages of the modelled alphabet, any downtime pattern, any time steps — the chain invariant
@@ -76,6 +76,21 @@ Theorem C04_no_history_halts : forall m g bs,
   Forall (ut_block m) bs -> env_ok (init_world g) bs ->
   w_halted (run_world (init_world g) bs) = None \/ w_halted (run_world (init_world g) bs) = Some (HComet 5).
 Proof. exact history_never_halts. Qed.
+
+(* ... and that bound holds too when consensus keys come from a pool of N keys with N * (2^63-1)/10^6 within it (N <= 125000)
+   and genesis amounts are below 2^63: token amounts never exceed 2^63-1 and a set has at most N members *)
+Theorem C04_total_power_within_comet_bound : forall N g bs,
+  wf_genesis g -> wf_genesis_bounded N g -> 0 <= N -> N * max_power_one <= max_total_voting_power -> Forall (kb_block N) bs ->
+  w_halted (run_world (init_world g) bs) <> Some (HComet 5).
+Proof. exact history_never_too_large. Qed.
+
+(* nothing left: under the environment's hypotheses no history halts at all *)
+Theorem C04_no_history_halts_at_all : forall m N g bs,
+  wf_genesis g -> wf_genesis_bounded N g -> 0 <= N -> N * max_power_one <= max_total_voting_power ->
+  1 <= g_max_vals g -> 1 <= m -> m <= g_unbond_secs g -> 0 <= g_slash_down_bp g ->
+  Forall (ut_block m) bs -> Forall (kb_block N) bs -> env_ok (init_world g) bs ->
+  w_halted (run_world (init_world g) bs) = None.
+Proof. exact history_never_halts_at_all. Qed.
 
 (* the EndBlocker's own contract, for any store satisfying the invariant and index sets of any size *)
 Theorem C04_endblocker_contract : forall c,
